@@ -244,7 +244,7 @@ let process (c : case) =
    | None -> ());
   (* generated AST: encoder, sizes, free verify, type *)
   (match c.src, c.enc with
-   | Some s, Some [ehex; sz; pc; hf; ty] ->
+   | Some s, Some (ehex :: sz :: pc :: hf :: ty :: _) ->
      (try
         let m = parse_ms tap (split s) in
         let ke = keyenv_of tap in
